@@ -64,12 +64,12 @@ ASSUMPTIONS = [
     'is a violation in both readings',
     'pydantic.ValidationError raised by Namespace(**doc) counts as a proper rejection with locations (the package '
     'loader converts it to DSLInvalidError itself)',
-    'non-termination is detected with a CPU-time (ITIMER_VIRTUAL) budget of 1 s per compilation, at least 10x the '
+    'non-termination is detected with a CPU-time (ITIMER_VIRTUAL) budget of 1.5 s per compilation (first expiries of a process confirmed with 5 s), at least 10x the '
     'largest CPU time any terminating compilation of the run needed (recorded as max_compile_cpu_ms)',
     'every underlying error of a DSLInvalidError must have a non-empty location',
 ]
-CPU_BUDGET = 1.0
-CPU_BUDGET_CONFIRM = 4.0
+CPU_BUDGET = 1.5
+CPU_BUDGET_CONFIRM = 5.0
 
 
 # ------------------------------------------------------------------------------------------------ observation
@@ -295,7 +295,7 @@ def judge(col, case):
 
     # outcomes that violate the property whatever the namespace means
     if kind == 'hang':
-        return fail('the compiler did not terminate within %.0f CPU seconds (reference model: %s %s)'
+        return fail('the compiler did not terminate within %.1f CPU seconds (reference model: %s %s)'
                     % (CPU_BUDGET, verdict, okind or ''), 'hang')
     if kind == 'exception':
         return fail('the compiler raised %s (%s) instead of compiling or raising DSLInvalidError (reference model: %s %s)'
@@ -332,8 +332,8 @@ def judge(col, case):
                                     for (a, b), l in exp_edges.items()])
         return fail('compiled FlowIR differs from the reference flattening in its %s (up to renaming)' % diff,
                     'graph:%s' % diff)
-    col.outcome('%s -> compiled, isomorphic to the reference (%d components, %d edges)'
-                % (verdict, len(exp_nodes), min(len(exp_edges), 3)))
+    col.outcome('%s -> compiled, isomorphic to the reference (%d components, %s producer/consumer pairs)'
+                % (verdict, len(exp_nodes), len(exp_edges) if len(exp_edges) < 3 else '3+'))
 
 
 # ------------------------------------------------------------------------------------------------ enumeration
@@ -343,9 +343,7 @@ def _mutants(base, thorough):
     if not base['rep'] and not (thorough and base['mutate']):
         return
     seen = set([G.canon(base['doc'])])
-    for kind, site, doc in G.mutations(base['doc'], heavy=True):
-        if kind in G.HANG_PRONE and not base['rep']:
-            continue
+    for kind, site, doc in G.mutations(base['doc'], heavy=base['rep']):
         key = G.canon(doc)
         if key in seen:
             continue
